@@ -1,905 +1,16 @@
-(* C16 [T2] copy_value: the induction, for a single-segment destination.
-   P_wp f : writePtr (fuel f) of a pointer of the read-only source message into slot a of the
-            destination stores one word there and appends the copy at the end of the segment;
-            in EVERY memory that keeps that word and the appended bytes (whatever precedes them
-            or is appended later), the reader reads the slot as a pointer denoting the source's value.
-   P_cs f : copyStruct (fuel f) into a destination struct of any section sizes writes the data
-            words resized (truncated / zero-extended), the pointer words of the first
-            min(ns, nd) children, null for the missing ones, and appends the children.
-   Domain of this file ([cvdom]): values built from structs (any sizes), nulls and data-only lists
-   (void, 1/2/4/8-byte, bit lists), any depth; not yet: pointer lists, struct lists, capabilities. *)
+(* C16 [T2] copy_value: writePtr (P_cs f -> P_wp (S f)), all fuels, closed statements *)
 From CV Require Import Value.ValueEq Value.ValueEqProofs Value.EqualM Value.Den Value.DenFacts Value.DenLists
                        Value.CanonSpec Value.CanonProofs3 Value.CanonM Value.CanonMStruct Value.CanonMData Value.CanonMHeap
-                       Value.CanonMLoop Value.CanonMInd Value.CanonMListR Value.CanonMListP Value.CanonMListC Value.CopyValue Value.CopyValueHeap.
+                       Value.CanonMLoop Value.CanonMInd Value.CanonMBytes Value.CanonMBlocks Value.CopyValue Value.CopyValueHeap Value.CopyValueDefs Value.CopyValueCs Value.CopyValueLists Value.CopyValueComp.
 From CV Require Import Core.ReaderFacts Core.SafetyProofs Core.BuilderFacts Core.ArithFacts Core.CopySafe Core.WritePtrProofs.
 From Coq Require Import ZifyBool ZifyNat.
 Ltac Zify.zify_post_hook ::= Z.div_mod_to_equations.
 Open Scope Z_scope.
 
-Fixpoint cvdom (v : value) : bool :=
-  match v with
-  | VNull => true
-  | VStruct _ ps => forallb cvdom ps
-  | VBits _ => true
-  | VList LPtr es | VList LComp es => forallb cvdom es
-  | VList _ _ => true
-  | VCap _ => false
-  end.
-
-(* ------------------------------------------------------------------ words and bytes *)
-Lemma wob_w64 : forall fuel d, (length d <= fuel)%nat -> bytes_ok d -> Forall w64 (words_of_bytes d).
-Proof.
-  induction fuel as [|fuel IH]; intros d Hl Hb.
-  - destruct d; [constructor|cbn [length] in Hl; lia].
-  - assert (W : forall l, bytes_ok l -> (length l <= 8)%nat -> w64 (le_decode l)).
-    { intros l Hbl Hll. pose proof (le_decode_range l Hbl) as R. unfold w64, two64.
-      assert (256 ^ zlen l <= 256 ^ 8) by (apply Z.pow_le_mono_r; [lia|unfold zlen; clear - Hll; lia]).
-      change (256 ^ 8) with 18446744073709551616 in *. set (X := 256 ^ zlen l) in *. clearbody X. split; [apply R|]. destruct R as [_ R2]. eapply Z.lt_le_trans; [exact R2|exact H]. }
-    destruct (Nat.le_gt_cases 8 (length d)) as [Hge|Hlt].
-    + rewrite <- (firstn_skipn 8 d). rewrite wob_8 by (rewrite firstn_length; lia). constructor.
-      * apply W; [apply Forall_firstn'; exact Hb| rewrite firstn_length; lia].
-      * apply IH; [rewrite skipn_length; lia| apply Forall_skipn'; exact Hb].
-    + destruct d as [|b0 r] eqn:Ed; [constructor|]. rewrite <- Ed in *.
-      assert (0 < length d)%nat by (rewrite Ed; cbn [length]; lia).
-      rewrite wob_small by lia. constructor; [|constructor]. apply W; [exact Hb|lia].
-Qed.
-
-Lemma bow_zeros n : bytes_of_words (repeat 0 n) = repeat 0 (8 * n).
-Proof.
-  induction n as [|n IH]; [reflexivity|]. cbn [repeat]. unfold bytes_of_words in *. cbn [flat_map]. rewrite IH.
-  replace (8 * S n)%nat with (8 + 8 * n)%nat by lia. reflexivity.
-Qed.
-
-(* the bytes copyStruct writes into the data section are the resized words *)
-Lemma copy_data_words d dn : bytes_ok d -> (length d mod 8 = 0)%nat ->
-  let n := Nat.min (length d) (8 * dn) in
-  firstn n d ++ repeat 0 (8 * dn - n) = bytes_of_words (resize_words (words_of_bytes d) dn).
-Proof.
-  intros Hb Hm. cbv zeta. unfold resize_words. rewrite bow_app, bow_zeros.
-  rewrite <- (firstn_bytes_words d dn Hb Hm).
-  pose proof (bow_wob d Hb Hm) as E. apply (f_equal (@length Z)) in E. rewrite bow_length in E.
-  f_equal.
-  - destruct (Nat.le_gt_cases (length d) (8 * dn)) as [H|H].
-    + rewrite Nat.min_l by lia. rewrite !firstn_all2 by lia. reflexivity.
-    + rewrite Nat.min_r by lia. reflexivity.
-  - f_equal. lia.
-Qed.
-
-Lemma bow_sub_word : forall blk k, (k < length blk)%nat ->
-  sub (bytes_of_words blk) (8 * Z.of_nat k) 8 = le_encode 8 (nth k blk 0).
-Proof.
-  induction blk as [|x r IH]; intros k Hk; [cbn [length] in Hk; lia|].
-  change (bytes_of_words (x :: r)) with (le_encode 8 x ++ bytes_of_words r).
-  destruct k as [|k].
-  - cbn [nth]. rewrite sub_app_l by (unfold zlen; rewrite ?le_encode_length; lia).
-    unfold sub. cbn [Z.to_nat skipn]. apply firstn_all2. rewrite le_encode_length. lia.
-  - cbn [nth]. rewrite sub_app_r by (unfold zlen; rewrite ?le_encode_length; lia).
-    unfold zlen. rewrite le_encode_length. replace (8 * Z.of_nat (S k) - Z.of_nat 8) with (8 * Z.of_nat k) by lia.
-    apply IH. cbn [length] in Hk. lia.
-Qed.
-
-Lemma block_word M A blk k : 0 <= A -> sub M A (8 * zlen blk) = bytes_of_words blk -> (k < length blk)%nat ->
-  word_is M (A + 8 * Z.of_nat k) (nth k blk 0).
-Proof.
-  intros HA Hs Hk. unfold word_is.
-  replace (sub M (A + 8 * Z.of_nat k) 8) with (sub (sub M A (8 * zlen blk)) (8 * Z.of_nat k) 8)
-    by (apply sub_sub; unfold zlen; lia).
-  rewrite Hs. apply bow_sub_word. exact Hk.
-Qed.
-
-Lemma bow_sub_mid a b c : sub (bytes_of_words (a ++ b ++ c)) (8 * zlen a) (8 * zlen b) = bytes_of_words b.
-Proof.
-  rewrite !bow_app. rewrite sub_app_r by (unfold zlen; rewrite ?bow_length; lia).
-  replace (8 * zlen a - zlen (bytes_of_words a)) with 0 by (unfold zlen; rewrite bow_length; lia).
-  rewrite sub_app_l by (unfold zlen; rewrite ?bow_length; lia).
-  unfold sub. cbn [Z.to_nat skipn]. apply firstn_all2. rewrite bow_length. unfold zlen. lia.
-Qed.
-
-Lemma nthv_resize_ptrs ps n i : 0 <= i < Z.of_nat n ->
-  nthv (resize_ptrs ps n) i = if i <? zlen ps then nthv ps i else VNull.
-Proof.
-  intros Hi. unfold nthv, resize_ptrs, zlen. destruct (i <? Z.of_nat (length ps)) eqn:E.
-  - rewrite app_nth1 by (rewrite firstn_length; lia). apply nth_firstn_lt. lia.
-  - rewrite app_nth2 by (rewrite firstn_length; lia).
-    destruct (Nat.lt_ge_cases (Z.to_nat i - length (firstn n ps)) (n - length ps)) as [H|H].
-    + apply nth_repeat.
-    + apply nth_overflow. rewrite repeat_length. exact H.
-Qed.
-
-(* ------------------------------------------------------------------ the statements *)
-Definition BOUND := 4294967288.
-
-(* the slot at byte address a of the single segment M reads as a pointer denoting v *)
-Definition reads_as (M : list Z) (a : Z) (v : value) : Prop :=
-  exists dep rl q rl', readPtr true [M] rl 0 M a dep = (Ok q, rl') /\ forall mid caps, den true [M] mid caps q v.
-
-Lemma reads_null M a : 0 <= a -> a + 8 <= zlen M -> zlen M <= BOUND -> word_is M a 0 -> reads_as M a VNull.
-Proof.
-  intros Ha Hb Hl Hw. exists 1, 0, nullPtr, 0. split; [apply read_zero_word; assumption|]. intros mid caps. apply den_null. reflexivity.
-Qed.
-
 Section Copy.
 Context (m : segs) (Hm : msg_ok m).
 
-Definition P_wp (f : nat) : Prop := forall D cap rl a src v fc w',
-  hinv D -> 0 <= a -> a mod 8 = 0 -> a + 8 <= zlen D ->
-  wf_ptr m src -> aligned src -> caligned src -> ctag_ok m src -> den true m 0 [] src v -> cvdom v = true ->
-  write_ptr f true (dstw D cap m rl) 0 a InSrc src fc = Ok w' ->
-  exists word body cap' rl',
-    w' = dstw (put_word D a word ++ body) cap' m rl' /\ hinv (D ++ body) /\
-    forall pre' tail, zlen pre' = zlen D -> word_is pre' a word -> zlen (pre' ++ body ++ tail) <= BOUND ->
-      reads_as (pre' ++ body ++ tail) a v.
-
-Definition P_cs (f : nat) : Prop := forall D cap rl dst s ws vs A dn pn w',
-  hinv D -> dst_at dst A dn pn -> 0 <= A -> A mod 8 = 0 -> 0 <= dn <= 65535 -> 0 <= pn < 65536 ->
-  A + 8 * dn + 8 * pn <= zlen D ->
-  p_valid s = true -> p_kind s = KStruct -> wf_ptr m s -> aligned s ->
-  den true m 0 [] s (VStruct ws vs) -> forallb cvdom vs = true ->
-  copy_struct f true (dstw D cap m rl) dst InSrc s = Ok w' ->
-  exists pwords kids cap' rl',
-    zlen pwords = pn /\
-    w' = dstw (set_slots D A (resize_words ws (Z.to_nat dn) ++ pwords) ++ kids) cap' m rl' /\
-    hinv (D ++ kids) /\
-    forall pre' tail, zlen pre' = zlen D ->
-      sub pre' A (8 * (dn + pn)) = bytes_of_words (resize_words ws (Z.to_nat dn) ++ pwords) ->
-      zlen (pre' ++ kids ++ tail) <= BOUND ->
-      forall i, 0 <= i < pn -> reads_as (pre' ++ kids ++ tail) (A + 8 * dn + 8 * i) (nthv (resize_ptrs vs (Z.to_nat pn)) i).
-
-(* the second loop of copyStruct: destination slots beyond the source's count are set to null *)
-Lemma zero_loop dst B D cap rl ns : forall k ws kids, 0 <= B -> zlen ws = ns ->
-  B + 8 * (ns + Z.of_nat k) <= zlen D -> zlen D + zlen kids <= BOUND ->
-  (forall j, 0 <= j < ns + Z.of_nat k -> pointerAddress dst j = B + 8 * j) ->
-  fold_res (map (fun i => ns + i) (iota k)) (dstw (set_slots D B ws ++ kids) cap m rl)
-           (fun wa j => do m1 <- writeRawPointer (w_dst wa) 0 (pointerAddress dst j) 0; Ok (w_set_dst wa m1))
-  = Ok (dstw (set_slots D B (ws ++ repeat 0 k) ++ kids) cap m rl).
-Proof.
-  induction k as [|k IH]; intros ws kids HB Lw Hb Hbd PA.
-  - cbn. rewrite app_nil_r. reflexivity.
-  - rewrite iota_S, map_app, fold_res_app, IH by (try assumption; try lia; intros j Hj; apply PA; lia).
-    cbn [bind map fold_res]. rewrite PA by (unfold zlen in *; lia). cbn [w_dst dstw].
-    assert (Lsl : zlen (set_slots D B (ws ++ repeat 0 k)) = zlen D).
-    { apply set_slots_length; [assumption|]. rewrite app_length, repeat_length. unfold zlen in *. lia. }
-    rewrite writeRaw_seg0 by (rewrite ?zlen_app, ?Lsl; unfold zlen, BOUND in *; lia). cbn [bind].
-    unfold dstw, w_set_dst. cbn [w_src w_src_rl]. f_equal. f_equal.
-    replace (B + 8 * (ns + Z.of_nat k)) with (B + 8 * Z.of_nat (length (ws ++ repeat 0 k)))
-      by (rewrite app_length, repeat_length; unfold zlen in *; lia).
-    rewrite put_word_slot by (rewrite ?app_length, ?repeat_length; unfold zlen in *; lia).
-    rewrite <- app_assoc. replace (repeat 0 k ++ [0]) with (repeat 0 (S k)); [reflexivity|].
-    clear. induction k; [reflexivity|]. cbn [repeat app]. f_equal. exact IHk.
-Qed.
-
-Lemma cs_step f : P_wp f -> P_cs (S f).
-Proof.
-  intros HW D cap rl dst s ws vs A dn pn w' Hi (Dv & Dseg & Doff & Dsz) HA HAm Hdn Hpn Hb Hv Hk Hwf Hal D0 Hsd H.
-  destruct Hi as [Hi1 Hi2].
-  destruct (den_struct_inv _ _ _ _ _ _ D0 Hv Hk) as (d & vs0 & Ev & Wz & Sl & Lvs & K).
-  inversion Ev; subst ws vs0; clear Ev.
-  destruct Wz as [Wd Wp].
-  apply slice_eq_sub in Sl as Sl'; [|apply seg_of_ok; assumption| lia]. destruct Sl' as (Ed & B1 & B2).
-  assert (Ld : zlen d = DataSize (p_size s)) by (rewrite Ed; apply sub_length; lia).
-  assert (Hbd : bytes_ok d) by (eapply slice_bytes_ok; eassumption).
-  assert (Hal' : (length d mod 8 = 0)%nat).
-  { apply Nat2Z.inj. rewrite Nat2Z.inj_mod. unfold zlen in Ld. rewrite Ld. exact (Hal Hk). }
-  set (ns := PointerCount (p_size s)) in *.
-  assert (Z0 : 0 <= zlen D) by (unfold zlen; lia).
-  rewrite copy_struct_S in H. rewrite Dv, Hv in H. cbn [negb] in H.
-  change (nth (Z.to_nat (p_seg s)) (w_segs (dstw D cap m rl) InSrc) []) with (seg_of m s) in H.
-  rewrite Sl in H. cbn [bind] in H.
-  rewrite Dseg, Doff, Dsz in H. cbn [DataSize PointerCount] in H.
-  change (nth (Z.to_nat 0) (bm_data (w_dst (dstw D cap m rl))) []) with D in H.
-  rewrite slice_ok in H by lia. cbn [bind] in H.
-  assert (Lsub : length (sub D A (8 * dn)) = (8 * Z.to_nat dn)%nat).
-  { apply Nat2Z.inj. change (zlen (sub D A (8 * dn)) = Z.of_nat (8 * Z.to_nat dn)). rewrite sub_length by lia. lia. }
-  rewrite Lsub in H. rewrite (copy_data_words d (Z.to_nat dn) Hbd Hal') in H.
-  set (dws := resize_words (words_of_bytes d) (Z.to_nat dn)) in *.
-  assert (Ldw : zlen dws = dn) by (unfold dws, zlen; rewrite resize_words_length; lia).
-  unfold lift0 in H. cbn [w_dst dstw] in H.
-  rewrite seg_write_slots in H by lia. cbn [bind w_set_dst w_src w_src_rl] in H.
-  change (w_set_dst (dstw D cap m rl) (seg0 (set_slots D A dws) cap)) with (dstw (set_slots D A dws) cap m rl) in H.
-  fold ns in H.
-  assert (Ls1 : zlen (set_slots D A dws) = zlen D) by (apply set_slots_length; [lia|unfold zlen in *; lia]).
-  set (D1 := set_slots D A dws) in *.
-  set (nmin := Z.to_nat (Z.min ns pn)) in *.
-  (* the first loop *)
-  match type of H with context [fold_res (iota nmin) ?w0 ?st] => set (step := st) in * end.
-  set (P := fun (i : Z) (M : list Z) => zlen M <= BOUND -> reads_as M ((A + 8 * dn) + 8 * i) (nthv vs i)).
-  assert (Hstep : forall i D0' cap0 rl0 w0, 0 <= i < Z.of_nat nmin -> hinv D0' -> (A + 8 * dn) + 8 * Z.of_nat nmin <= zlen D0' ->
-            step (dstw D0' cap0 m rl0) i = Ok w0 ->
-            exists word body cap' rl',
-              w0 = dstw (put_word D0' ((A + 8 * dn) + 8 * i) word ++ body) cap' m rl' /\ hinv (D0' ++ body) /\
-              forall pre' tail, zlen pre' = zlen D0' -> word_is pre' ((A + 8 * dn) + 8 * i) word -> P i (pre' ++ body ++ tail)).
-  { intros i D0' cap0 rl0 w0 Hi0 Hinv0 Hb0 Hs0. unfold step in Hs0. cbn [w_segs w_rl dstw w_src w_src_rl] in Hs0.
-    change (nth (Z.to_nat (p_seg s)) m []) with (seg_of m s) in Hs0.
-    destruct (readPtr true m rl0 (p_seg s) (seg_of m s) (pointerAddress s i) (p_depth s)) as [r rl1] eqn:ER.
-    destruct r as [p0| |]; try discriminate. cbn [bind] in Hs0.
-    destruct (K i ltac:(unfold nmin, ns in *; lia)) as (dep & rlk & q & rlk' & RK & DK).
-    assert (DP : den true m 0 [] p0 (nthv vs i)) by (eapply den_core; [eapply readPtr_core; [exact RK|exact ER]| exact DK]).
-    assert (WP : wf_ptr m p0).
-    { pose proof (struct_ptr_safe (mkCfg 0 0 true true) m rl0 s i Hm (conj Hwf (fun _ => Hk)) ltac:(lia)) as SS.
-      unfold struct_ptr in SS. rewrite Hv in SS. cbn [negb orb] in SS.
-      destruct (i >=? PointerCount (p_size s)) eqn:Eip; [unfold nmin, ns in *; lia|].
-      cbn [cfg_strict] in SS. rewrite ER in SS. cbn in SS. apply SS. reflexivity. }
-    assert (AP : aligned p0) by (eapply readPtr_aligned; exact ER).
-    assert (CAP : caligned p0) by (eapply readPtr_caligned; exact ER).
-    assert (CTG : ctag_ok m p0).
-    { destruct (Hwf Hv) as (Hsg & Hob). unfold wf_obj in Hob. rewrite Hk in Hob. destruct Hob as (_ & Ho1 & Ho2).
-      assert (PAs : pointerAddress s i = p_off s + DataSize (p_size s) + 8 * i).
-      { apply pointerAddress_eq; try lia. pose proof (seg_of_ok m s Hm) as [Sl1 _]. unfold maxSegmentSize in Sl1. unfold nmin, ns in *. lia. }
-      eapply (readPtr_ctag true m rl0 (p_seg s) (seg_of m s)); [exact Hm|split; [exact Hsg|reflexivity]| | |exact ER];
-        rewrite PAs; unfold nmin, ns in *; lia. }
-    assert (SD : cvdom (nthv vs i) = true).
-    { unfold nthv. eapply forallb_In; [exact Hsd|]. apply nth_In. unfold zlen, nmin, ns in *. lia. }
-    change (w_set_rl (dstw D0' cap0 m rl0) InSrc rl1) with (dstw D0' cap0 m rl1) in Hs0.
-    try rewrite Dseg in Hs0.
-    assert (PA : pointerAddress dst i = (A + 8 * dn) + 8 * i).
-    { rewrite pointerAddress_eq; rewrite ?Doff, ?Dsz; cbn [DataSize]; destruct Hinv0; unfold zlen, nmin in *; lia. }
-    rewrite PA in Hs0.
-    destruct (HW D0' cap0 rl1 ((A + 8 * dn) + 8 * i) p0 (nthv vs i) true w0 Hinv0 ltac:(lia) ltac:(lia)
-                 ltac:(unfold nmin in *; lia) WP AP CAP CTG DP SD Hs0) as (word & body & cap2 & rl2 & -> & Hinv2 & Post).
-    exists word, body, cap2, rl2. split; [reflexivity|]. split; [exact Hinv2|].
-    intros pre' tail Lp Hwd Hbound. apply Post; assumption. }
-  destruct (fold_res (iota nmin) (dstw D1 cap m rl) step) as [w2| |] eqn:E1; try discriminate H. cbn [bind] in H.
-  destruct (sem_loop step m (A + 8 * dn) nmin P ltac:(lia) ltac:(lia) Hstep nmin (le_n _) D1 cap rl w2
-                     ltac:(split; lia) ltac:(rewrite Ls1; unfold nmin; lia) E1)
-    as (words & kids & cap1 & rl1 & Lw & -> & Hinvk & PostL).
-  (* the second loop *)
-  set (k2 := Z.to_nat (pn - ns)) in *.
-  assert (Hbk : zlen D + zlen kids <= BOUND).
-  { destruct Hinvk as [_ Hk2]. rewrite zlen_app, Ls1 in Hk2. unfold BOUND. lia. }
-  assert (E2 : set_slots D1 (A + 8 * dn) words = set_slots D A (dws ++ words)).
-  { unfold D1. rewrite <- Ldw. apply set_slots_app; [lia|]. rewrite zlen_app. unfold zlen, nmin in *. lia. }
-  rewrite E2 in *.
-  destruct (Z_lt_le_dec ns pn) as [Hlt|Hge].
-  - (* missing pointers: null *)
-    assert (Lw' : zlen words = ns) by (unfold zlen, nmin in *; lia).
-    assert (E3 : set_slots D A (dws ++ words) = set_slots D1 (A + 8 * dn) words) by (symmetry; exact E2).
-    rewrite E3 in H.
-    rewrite (zero_loop dst (A + 8 * dn) D1 cap1 rl1 ns k2 words kids) in H;
-      try lia; try assumption; try (rewrite Ls1; unfold k2; lia).
-    2:{ intros j Hj. rewrite pointerAddress_eq; rewrite ?Doff, ?Dsz; cbn [DataSize]; unfold k2 in *; lia. }
-    apply Ok_inj in H. subst w'.
-    exists (words ++ repeat 0 k2), kids, cap1, rl1.
-    split; [rewrite zlen_app; unfold zlen in *; rewrite repeat_length; unfold k2; lia|].
-    split.
-    { assert (E4 : set_slots D1 (A + 8 * dn) (words ++ repeat 0 k2) = set_slots D A (dws ++ words ++ repeat 0 k2)).
-      { unfold D1. rewrite <- Ldw. apply set_slots_app; [lia|]. rewrite !zlen_app. unfold zlen in *. rewrite repeat_length. unfold k2. lia. }
-      rewrite E4. reflexivity. }
-    split; [unfold hinv in *; rewrite zlen_app in *; rewrite Ls1 in Hinvk; exact Hinvk|].
-    intros pre' tail Lp Hs Hbound i Hi0.
-    assert (Lblk : zlen (dws ++ words ++ repeat 0 k2) = dn + pn)
-      by (rewrite !zlen_app; unfold zlen in *; rewrite repeat_length; unfold k2; lia).
-    rewrite nthv_resize_ptrs by lia.
-    destruct (i <? zlen vs) eqn:Ei.
-    + assert (HsL : sub pre' (A + 8 * dn) (8 * Z.of_nat nmin) = bytes_of_words words).
-      { replace (sub pre' (A + 8 * dn) (8 * Z.of_nat nmin))
-          with (sub (sub pre' A (8 * (dn + pn))) (8 * zlen dws) (8 * zlen words)) by (rewrite sub_sub; [f_equal; unfold zlen, nmin in *; lia| | | |]; unfold zlen, nmin in *; lia).
-        rewrite Hs. apply bow_sub_mid. }
-      exact (PostL pre' tail (eq_trans Lp (eq_sym Ls1)) HsL i ltac:(unfold nmin, zlen in *; lia) Hbound).
-    + apply reads_null; try (rewrite !zlen_app in *; unfold zlen in *; lia).
-      assert (Hwd : word_is pre' (A + 8 * Z.of_nat (Z.to_nat (dn + i))) (nth (Z.to_nat (dn + i)) (dws ++ words ++ repeat 0 k2) 0)).
-      { apply block_word; [lia| rewrite Lblk; exact Hs| unfold zlen in Lblk; lia]. }
-      replace (A + 8 * Z.of_nat (Z.to_nat (dn + i))) with (A + 8 * dn + 8 * i) in Hwd by lia.
-      assert (Enth : nth (Z.to_nat (dn + i)) (dws ++ words ++ repeat 0 k2) 0 = 0).
-      { rewrite app_nth2 by (unfold zlen in *; lia). rewrite app_nth2 by (unfold zlen in *; lia).
-        destruct (Nat.lt_ge_cases (Z.to_nat (dn + i) - length dws - length words) k2) as [Hx|Hx];
-          [apply nth_repeat| apply nth_overflow; rewrite repeat_length; exact Hx]. }
-      rewrite Enth in Hwd. unfold word_is in *. rewrite sub_app_l by (unfold zlen in *; lia). exact Hwd.
-  - (* the source has at least as many pointers *)
-    replace k2 with 0%nat in H by (unfold k2; lia). cbn [iota seq map fold_res] in H.
-    apply Ok_inj in H. subst w'.
-    exists words, kids, cap1, rl1.
-    split; [unfold zlen, nmin in *; lia|]. split; [reflexivity|].
-    split; [unfold hinv in *; rewrite zlen_app in *; rewrite Ls1 in Hinvk; exact Hinvk|].
-    intros pre' tail Lp Hs Hbound i Hi0.
-    rewrite nthv_resize_ptrs by lia. replace (i <? zlen vs) with true by (unfold zlen, ns in *; lia).
-    assert (HsL : sub pre' (A + 8 * dn) (8 * Z.of_nat nmin) = bytes_of_words words).
-    { replace (sub pre' (A + 8 * dn) (8 * Z.of_nat nmin))
-        with (sub (sub pre' A (8 * (dn + pn))) (8 * zlen dws) (8 * zlen words)) by (rewrite sub_sub; [f_equal; unfold zlen, nmin in *; lia| | | |]; unfold zlen, nmin in *; lia).
-      rewrite Hs. rewrite <- (app_nil_r words) at 1. apply bow_sub_mid. }
-    exact (PostL pre' tail (eq_trans Lp (eq_sym Ls1)) HsL i ltac:(unfold nmin, zlen in *; lia) Hbound).
-Qed.
-
-(* ------------------------------------------------------------------ data-only lists *)
-(* the copying branch of writePtr for a non-composite list without pointers *)
-Lemma raw_list_copy f D cap rl a src fc w' lt :
-  hinv D -> 0 <= a -> a mod 8 = 0 -> a + 8 <= zlen D ->
-  p_valid src = true -> p_kind src = KList -> p_comp src = false ->
-  (p_bit src || (PointerCount (p_size src) =? 0)) = true ->
-  0 <= p_len src < 536870912 -> 0 <= lt < 7 ->
-  list_raw (mkPtr true 0 (zlen D) (p_len src) (p_size src) maxDepth KList false (p_bit src) false)
-    = Ok (rawListPointer 0 lt (p_len src)) ->
-  (if lt =? 1 then mkOS 0 0 else es_of lt) = p_size src -> (lt =? 1) = p_bit src ->
-  (if lt =? 1 then bitListSize (p_len src) else totalSize (es_of lt) * p_len src) = list_allocSize src ->
-  0 <= p_off src -> p_off src + list_allocSize src <= zlen (seg_of m src) -> zlen (seg_of m src) <= 4294967288 ->
-  write_ptr (S f) true (dstw D cap m rl) 0 a InSrc src fc = Ok w' ->
-  let sz := list_allocSize src in
-  let bs := sub (seg_of m src) (p_off src) sz in
-  exists word pad cap',
-    w' = dstw (put_word D a word ++ (bs ++ repeat 0 pad)) cap' m rl /\ hinv (D ++ (bs ++ repeat 0 pad)) /\
-    forall pre' tail, zlen pre' = zlen D -> word_is pre' a word -> zlen (pre' ++ (bs ++ repeat 0 pad) ++ tail) <= BOUND ->
-      exists rl', readPtr true [pre' ++ (bs ++ repeat 0 pad) ++ tail] 4294967288 0 (pre' ++ (bs ++ repeat 0 pad) ++ tail) a 1
-        = (Ok (mkPtr true 0 (zlen D) (p_len src) (p_size src) (uint_dec 1) KList false (p_bit src) false), rl').
-Proof.
-  intros [Hi1 Hi2] Ha Ham Hab Hv Hk Hc Hraw Hn Hlt Hlr Hes Hbit Hls Ho Hbd Hsl H. cbv zeta.
-  assert (Z0 : 0 <= zlen D) by (unfold zlen; lia).
-  set (sz := list_allocSize src) in *.
-  assert (Hsz : 0 <= sz).
-  { rewrite <- Hls. destruct (lt =? 1); [unfold bitListSize, u32; lia|]. unfold totalSize, u32. nia. }
-  rewrite write_ptr_S in H. rewrite Hv, Hk in H. cbn [negb] in H.
-  replace (fc || is_src InSrc) with true in H by (cbn [is_src]; rewrite Bool.orb_true_r; reflexivity).
-  cbv zeta in H. fold sz in H. cbn [w_dst dstw] in H.
-  destruct (alloc (seg0 D cap) 0 sz) as [[[m1 sid1] addr]| |] eqn:Ea; try discriminate H.
-  pose proof (alloc_bound_pad D cap sz m1 sid1 addr Ea) as Hbound0.
-  destruct (alloc_seg0 D cap sz m1 sid1 addr Hi1 Hsz Ea) as (cap1 & -> & -> & ->).
-  cbn [bind] in H. rewrite Hc, Hraw in H. cbn [bind] in H.
-  unfold copy_bytes in H. cbn [w_segs w_set_dst w_src w_dst dstw] in H.
-  change (nth (Z.to_nat (p_seg src)) m []) with (seg_of m src) in H.
-  rewrite slice_ok in H by lia. cbn [bind] in H.
-  set (bs := sub (seg_of m src) (p_off src) sz) in *.
-  assert (Lbs : zlen bs = sz) by (unfold bs; apply sub_length; lia).
-  assert (P0 : sz <= padToWord sz) by (unfold padToWord, u32; lia).
-  assert (Pm : padToWord sz mod 8 = 0) by (unfold padToWord; lia).
-  unfold lift0 in H. cbn [w_dst] in H.
-  rewrite seg_write_raw in H; [| unfold zlen; lia | rewrite zlen_app; unfold zlen in *; rewrite repeat_length; lia
-                               | rewrite zlen_app; unfold zlen in *; rewrite repeat_length; lia].
-  cbn [bind] in H. rewrite write_bytes_end in H by (unfold zlen in *; lia).
-  set (pad := (Z.to_nat (padToWord sz) - length bs)%nat) in *.
-  set (body := bs ++ repeat 0 pad) in *.
-  assert (Lbody : zlen body = padToWord sz) by (unfold body, pad; rewrite zlen_app; unfold zlen in *; rewrite repeat_length; lia).
-  cbn [bind p_comp p_seg p_off] in H. rewrite Hlr in H. cbn [bind] in H.
-  unfold place in H. cbn [w_dst w_set_dst] in H. change (0 =? 0) with true in H. cbv iota in H. unfold lift0 in H.
-  rewrite writeRaw_seg0 in H by (rewrite ?zlen_app, ?Lbody; lia). cbn [bind] in H.
-  apply Ok_inj in H. subst w'.
-  set (raw := rawListPointer 0 lt (p_len src)) in *.
-  set (word := withOffset raw (nearPointerOffset a (zlen D))) in *.
-  exists word, pad, cap1. fold body.
-  split.
-  { unfold dstw, w_set_dst. cbn [w_src w_src_rl]. f_equal. f_equal. apply put_word_app_left; lia. }
-  split; [split; rewrite zlen_app, Lbody; lia|].
-  intros pre' tail Lp Hw Hbound.
-  set (M := pre' ++ body ++ tail) in *.
-  assert (LM : zlen M = zlen D + padToWord sz + zlen tail) by (unfold M; rewrite !zlen_app, Lbody; lia).
-  assert (Lt0 : 0 <= zlen tail) by (unfold zlen; lia).
-  assert (HwM : word_is M a word) by (unfold word_is, M in *; rewrite sub_app_l by lia; exact Hw).
-  pose proof (elementSize_raw lt (p_len src) Hlt Hn) as Ees.
-  destruct (read_near_list true M a (zlen D) lt (p_len src) 1 Hlt Hn Ha Ham ltac:(lia) ltac:(unfold BOUND in *; lia) Z0 Hi1) as (rl' & RR).
-  - cbv zeta. rewrite Ees. rewrite Hls. fold sz. lia.
-  - exact HwM.
-  - lia.
-  - exists rl'. cbv zeta in RR. rewrite Ees in RR. rewrite Hes, Hbit in RR. exact RR.
-Qed.
-
-Lemma wp_raw_list f D cap rl a src v fc w' :
-  hinv D -> 0 <= a -> a mod 8 = 0 -> a + 8 <= zlen D ->
-  wf_ptr m src -> caligned src -> den true m 0 [] src v ->
-  match v with VBits _ => True | VList k _ => k <> LPtr /\ k <> LComp | _ => False end ->
-  write_ptr (S f) true (dstw D cap m rl) 0 a InSrc src fc = Ok w' ->
-  exists word body cap' rl',
-    w' = dstw (put_word D a word ++ body) cap' m rl' /\ hinv (D ++ body) /\
-    forall pre' tail, zlen pre' = zlen D -> word_is pre' a word -> zlen (pre' ++ body ++ tail) <= BOUND ->
-      reads_as (pre' ++ body ++ tail) a v.
-Proof.
-  intros Hi Ha Ham Hab Hwf Hcal D0 Hdom H.
-  assert (Z0 : 0 <= zlen D) by (unfold zlen; lia).
-  destruct v as [| | |k vs|bits]; try contradiction.
-  - (* void / primitive list *)
-    destruct Hdom as [K1 K2].
-    destruct (den_prim_inv m _ _ _ D0 K1 K2) as (w & Hw & -> & Hv & Hk & Hb & Hc & Hsz & Lvs & K).
-    destruct (Hwf Hv) as (Hseg & Hobj). unfold wf_obj in Hobj. rewrite Hk, Hb, Hsz in Hobj.
-    destruct Hobj as (Ho & Hlen & _ & Hbd).
-    assert (Hts : totalSize (mkOS w 0) = w) by (destruct Hw as [->|[->|[->|[->| ->]]]]; reflexivity).
-    assert (Hw8 : 0 <= w <= 8) by (destruct Hw as [->|[->|[->|[->| ->]]]]; lia).
-    rewrite Hts in Hbd.
-    assert (Hsok : seg_ok (seg_of m src)) by (apply seg_of_ok; assumption).
-    assert (Hsl : zlen (seg_of m src) <= 4294967288) by (apply Hsok).
-    set (n := p_len src) in *.
-    assert (Esz : list_allocSize src = n * w).
-    { unfold list_allocSize. rewrite Hv, Hb, Hc, Hsz, Hts. cbn [negb]. fold n.
-      rewrite times_some by (unfold maxSegmentSize; nia). lia. }
-    set (lt := if w =? 0 then 0 else if w =? 1 then 2 else if w =? 2 then 3 else if w =? 4 then 4 else 5).
-    assert (Hlt : 0 <= lt < 7 /\ (lt =? 1) = false /\ es_of lt = mkOS w 0)
-      by (unfold lt; destruct Hw as [->|[->|[->|[->| ->]]]]; cbn; repeat split; try reflexivity; lia).
-    destruct Hlt as (Hlt & Hl1 & Hes).
-    destruct (raw_list_copy f D cap rl a src fc w' lt Hi Ha Ham Hab Hv Hk Hc
-                ltac:(rewrite Hb, Hsz; reflexivity) Hlen Hlt) as (word & pad & cap' & -> & Hinv & Post); try assumption.
-    + rewrite Hb, Hsz. unfold list_raw, lt. cbn [p_valid p_comp p_bit p_size PointerCount DataSize negb p_len].
-      destruct Hw as [->|[->|[->|[->| ->]]]]; reflexivity.
-    + rewrite Hl1, Hes, Hsz. reflexivity.
-    + rewrite Hl1, Hb. reflexivity.
-    + rewrite Hl1, Hes, Hts, Esz. lia.
-    + rewrite Esz. nia.
-    + cbv zeta in *. rewrite Esz in *.
-      set (bs := sub (seg_of m src) (p_off src) (n * w)) in *.
-      assert (Lbs : zlen bs = n * w) by (unfold bs; apply sub_length; nia).
-      exists word, (bs ++ repeat 0 pad), cap', rl. split; [reflexivity|]. split; [exact Hinv|].
-      intros pre' tail Lp Hwd Hbound.
-      destruct (Post pre' tail Lp Hwd Hbound) as (rl' & RR).
-      set (M := pre' ++ (bs ++ repeat 0 pad) ++ tail) in *.
-      set (q := mkPtr true 0 (zlen D) n (p_size src) (uint_dec 1) KList false (p_bit src) false) in *.
-      exists 1, 4294967288, q, rl'. split; [exact RR|]. intros mid caps.
-      apply (den_prim true [M] mid caps q w vs); try reflexivity; try assumption.
-      { intros i Hi0. cbn [q p_len] in Hi0.
-        destruct (K i Hi0) as (d & Sd & Ev).
-        rewrite slice_ok in Sd by (unfold zlen in *; nia). apply Ok_inj in Sd. subst d.
-        exists (sub (seg_of m src) (p_off src + i * w) w). split; [|exact Ev].
-        unfold seg_of. cbn [q p_seg p_off Z.to_nat nth].
-        assert (LM : zlen M = zlen D + zlen (bs ++ repeat 0 pad) + zlen tail) by (unfold M; rewrite !zlen_app; lia).
-        assert (Lb2 : zlen (bs ++ repeat 0 pad) = n * w + Z.of_nat pad) by (rewrite zlen_app, Lbs; unfold zlen; rewrite repeat_length; lia).
-        assert (Lt0 : 0 <= zlen tail) by (unfold zlen; lia).
-        rewrite slice_ok by (unfold BOUND in *; nia). f_equal.
-        unfold M. rewrite sub_app_r by (rewrite ?Lp; nia). rewrite Lp.
-        replace (zlen D + i * w - zlen D) with (i * w) by lia.
-        rewrite sub_app_l by (rewrite ?Lb2; nia). rewrite sub_app_l by nia.
-        unfold bs. apply sub_sub; nia. }
-  - (* bit list *)
-    inversion D0 as [| | |p0 d Hv Hk Hb Hn Sl| | |]; subst p0 bits.
-    assert (Hc : p_comp src = false).
-    { destruct (p_comp src) eqn:E; [|reflexivity]. destruct (Hcal E) as [_ X]. congruence. }
-    destruct (Hwf Hv) as (Hseg & Hobj). unfold wf_obj in Hobj. rewrite Hk, Hb in Hobj.
-    destruct Hobj as (Ho & Hlen & Hsz & Hbd).
-    assert (Hsok : seg_ok (seg_of m src)) by (apply seg_of_ok; assumption).
-    assert (Hsl : zlen (seg_of m src) <= 4294967288) by (apply Hsok).
-    set (n := p_len src) in *.
-    assert (Ebl : bitListSize n = (n + 7) / 8) by (unfold bitListSize, u32; lia).
-    assert (Esz : list_allocSize src = (n + 7) / 8).
-    { unfold list_allocSize. rewrite Hv, Hb. cbn [negb]. exact Ebl. }
-    destruct (raw_list_copy f D cap rl a src fc w' 1 Hi Ha Ham Hab Hv Hk Hc
-                ltac:(rewrite Hb; reflexivity) Hlen ltac:(lia)) as (word & pad & cap' & -> & Hinv & Post); try assumption.
-    + rewrite Hb. reflexivity.
-    + cbn. symmetry. exact Hsz.
-    + cbn. symmetry. exact Hb.
-    + cbn [Z.eqb Pos.eqb]. fold n. rewrite Esz. exact Ebl.
-    + rewrite Esz. lia.
-    + cbv zeta in *. rewrite Esz in *.
-      rewrite Ebl, slice_ok in Sl by lia. apply Ok_inj in Sl. subst d.
-      set (bs := sub (seg_of m src) (p_off src) ((n + 7) / 8)) in *.
-      assert (Lbs : zlen bs = (n + 7) / 8) by (unfold bs; apply sub_length; lia).
-      exists word, (bs ++ repeat 0 pad), cap', rl. split; [reflexivity|]. split; [exact Hinv|].
-      intros pre' tail Lp Hwd Hbound.
-      destruct (Post pre' tail Lp Hwd Hbound) as (rl' & RR).
-      set (M := pre' ++ (bs ++ repeat 0 pad) ++ tail) in *.
-      set (q := mkPtr true 0 (zlen D) n (p_size src) (uint_dec 1) KList false (p_bit src) false) in *.
-      exists 1, 4294967288, q, rl'. split; [exact RR|]. intros mid caps.
-      replace (bits_of (Z.to_nat n) bs) with (bits_of (Z.to_nat (p_len q)) bs) by reflexivity.
-      apply den_bits; try reflexivity; try assumption.
-      unfold seg_of. cbn [q p_seg p_off p_len Z.to_nat nth]. rewrite Ebl.
-      assert (LM : zlen M = zlen D + zlen (bs ++ repeat 0 pad) + zlen tail) by (unfold M; rewrite !zlen_app; lia).
-      assert (Lb2 : zlen (bs ++ repeat 0 pad) = (n + 7) / 8 + Z.of_nat pad) by (rewrite zlen_app, Lbs; unfold zlen; rewrite repeat_length; lia).
-      assert (Lt0 : 0 <= zlen tail) by (unfold zlen; lia).
-      rewrite slice_ok by (unfold BOUND in *; lia). f_equal.
-      unfold M. rewrite sub_app_r by (rewrite ?Lp; lia). rewrite Lp, Z.sub_diag.
-      rewrite sub_app_l by (rewrite ?Lb2; lia). rewrite sub_app_l by lia.
-      unfold sub. cbn [Z.to_nat skipn]. apply firstn_all2. unfold zlen in Lbs. lia.
-Qed.
-
-(* ------------------------------------------------------------------ pointer lists *)
-Lemma wp_ptr_list f : P_cs f -> forall D cap rl a src vs fc w',
-  hinv D -> 0 <= a -> a mod 8 = 0 -> a + 8 <= zlen D ->
-  wf_ptr m src -> den true m 0 [] src (VList LPtr vs) -> forallb cvdom vs = true ->
-  write_ptr (S f) true (dstw D cap m rl) 0 a InSrc src fc = Ok w' ->
-  exists word body cap' rl',
-    w' = dstw (put_word D a word ++ body) cap' m rl' /\ hinv (D ++ body) /\
-    forall pre' tail, zlen pre' = zlen D -> word_is pre' a word -> zlen (pre' ++ body ++ tail) <= BOUND ->
-      reads_as (pre' ++ body ++ tail) a (VList LPtr vs).
-Proof.
-  intros HC D cap rl a src vs fc w' Hi Ha Ham Hab Hwf D0 Hsd H.
-  destruct (CanonMListP.den_ptrs_inv m _ _ D0) as (Hv & Hk & Hb & Hc & Hsz & Lvs & K).
-  destruct (den_elem true m 0 [] src LPtr vs Hm D0 Hv) as (_ & _ & _ & DE).
-  destruct (Hwf Hv) as (Hseg & Hobj). unfold wf_obj in Hobj. rewrite Hk, Hb, Hsz in Hobj.
-  destruct Hobj as (Ho & Hlen & _ & Hbd). change (totalSize (mkOS 0 1)) with 8 in Hbd.
-  assert (Hsl : zlen (seg_of m src) <= 4294967288) by (apply seg_of_ok; assumption).
-  destruct Hi as [Hi1 Hi2]. assert (Z0 : 0 <= zlen D) by (unfold zlen; lia).
-  set (n := p_len src) in *.
-  assert (Esz : list_allocSize src = 8 * n).
-  { unfold list_allocSize. rewrite Hv, Hb, Hc, Hsz. cbn [negb]. change (totalSize (mkOS 0 1)) with 8. fold n.
-    rewrite times_some by (unfold maxSegmentSize; lia). reflexivity. }
-  rewrite write_ptr_S in H. rewrite Hv, Hk in H. cbn [negb] in H.
-  replace (fc || is_src InSrc) with true in H by (cbn [is_src]; rewrite Bool.orb_true_r; reflexivity).
-  cbv zeta in H. rewrite Esz in H. cbn [w_dst dstw] in H.
-  destruct (alloc (seg0 D cap) 0 (8 * n)) as [[[m1 sid1] addr]| |] eqn:Ea; try discriminate H.
-  pose proof (alloc_bound D cap (8 * n) m1 sid1 addr ltac:(lia) ltac:(lia) Ea) as Hbound0.
-  destruct (alloc_seg0 D cap (8 * n) m1 sid1 addr Hi1 ltac:(lia) Ea) as (cap1 & -> & -> & ->).
-  rewrite (padToWord_mult (8 * n)) in * by lia.
-  cbn [bind] in H. rewrite Hc, Hb, Hsz in H. cbn [bind PointerCount orb] in H. change (1 =? 0) with false in H. cbv iota in H.
-  unfold list_len in H. rewrite Hv in H. fold n in H.
-  set (D1 := D ++ repeat 0 (Z.to_nat (8 * n))) in *.
-  change (w_set_dst (dstw D cap m rl) (seg0 D1 cap1)) with (dstw D1 cap1 m rl) in H.
-  assert (L1 : zlen D1 = zlen D + 8 * n) by (unfold D1; rewrite zlen_app; unfold zlen; rewrite repeat_length; lia).
-  set (dstl := mkPtr true 0 (zlen D) n (mkOS 0 1) maxDepth KList false false false) in *.
-  match type of H with context [fold_res (iota (Z.to_nat n)) ?w0 ?st] => set (step := st) in * end.
-  set (P := fun (i : Z) (M : list Z) => zlen M <= BOUND -> reads_as M (zlen D + 8 * i) (nthv (sptrs (nthv vs i)) 0)).
-  assert (Hstep : forall i D0' cap0 rl0 w0, 0 <= i < Z.of_nat (Z.to_nat n) -> hinv D0' -> zlen D + 8 * Z.of_nat (Z.to_nat n) <= zlen D0' ->
-            step (dstw D0' cap0 m rl0) i = Ok w0 ->
-            exists word body cap' rl',
-              w0 = dstw (put_word D0' (zlen D + 8 * i) word ++ body) cap' m rl' /\ hinv (D0' ++ body) /\
-              forall pre' tail, zlen pre' = zlen D0' -> word_is pre' (zlen D + 8 * i) word -> P i (pre' ++ body ++ tail)).
-  { intros i D0' cap0 rl0 w0 Hi0 Hinv0 Hb0 Hs0. unfold step in Hs0.
-    assert (Hin : 0 <= i < n) by lia.
-    assert (EA : list_struct true dstl i
-                 = Ok (mkPtr true 0 (zlen D + 8 * i) 0 (mkOS 0 1) (if true && (maxDepth =? 0) then 0 else uint_dec maxDepth) KStruct false false true)).
-    { unfold list_struct, dstl. cbn [p_valid p_len p_bit p_off p_size p_seg p_depth negb orb].
-      destruct ((i <? 0) || (i >=? n)) eqn:E1; [lia|]. change (totalSize (mkOS 0 1)) with 8.
-      rewrite CanonMListP.element_some by lia. f_equal. f_equal. lia. }
-    rewrite EA in Hs0. cbn [bind] in Hs0.
-    set (de := mkPtr true 0 (zlen D + 8 * i) 0 (mkOS 0 1) (if true && (maxDepth =? 0) then 0 else uint_dec maxDepth) KStruct false false true) in *.
-    assert (Ex : exists se, list_struct true src i = Ok se).
-    { unfold list_struct. rewrite Hv, Hb. cbn [negb orb]. fold n.
-      destruct ((i <? 0) || (i >=? n)) eqn:E; [lia|].
-      destruct (element (p_off src) i (totalSize (p_size src))); eexists; reflexivity. }
-    destruct Ex as (se & El). rewrite El in Hs0. cbn [bind] in Hs0.
-    assert (Hbi : 0 <= p_off src + i * totalSize (p_size src) <= zlen (seg_of m src)) by (rewrite Hsz; change (totalSize (mkOS 0 1)) with 8; lia).
-    pose proof (list_struct_elem m src i se Hm Hv Hb ltac:(lia) Hbi El) as Hcore.
-    pose proof (list_struct_safe true m src i Hm (conj Hwf (fun _ => Hk)) ltac:(unfold list_len; rewrite Hv; lia)) as SS.
-    rewrite El in SS. cbn [res_sat] in SS. destruct SS as [We Ke].
-    destruct Hcore as (Cv & Cs & Co & Cl & Cz & Ck & Cc & Cb).
-    assert (Ve : p_valid se = true) by (rewrite Cv; reflexivity).
-    assert (Kse : p_kind se = KStruct) by (rewrite Ck; reflexivity).
-    assert (De : den true m 0 [] se (nthv vs i)).
-    { eapply den_core; [|apply (DE i); lia]. unfold same_core. repeat split; symmetry; assumption. }
-    assert (Ale : aligned se) by (intros _; rewrite Cz; cbn [elem_ptr p_size]; rewrite Hsz; reflexivity).
-    destruct (K i Hin) as (dep & rlk & q & rlk' & vi & RK & DK & Evi).
-    rewrite Evi in De.
-    assert (SDi : forallb cvdom [vi] = true).
-    { assert (SD0 : cvdom (nthv vs i) = true).
-      { unfold nthv. eapply forallb_In; [exact Hsd|]. apply nth_In. unfold zlen in *. lia. }
-      rewrite Evi in SD0. exact SD0. }
-    assert (Hdst : dst_at de (zlen D + 8 * i) 0 1) by (unfold dst_at, de; cbn; repeat split; reflexivity).
-    destruct (HC D0' cap0 rl0 de se [] [vi] (zlen D + 8 * i) 0 1 w0 Hinv0 Hdst ltac:(lia) ltac:(lia)
-                 ltac:(lia) ltac:(lia) ltac:(lia) Ve Kse We Ale De SDi Hs0)
-      as (pwords & kids & cap2 & rl2 & Lp & -> & Hinv2 & PostC).
-    destruct pwords as [|pw [|? ?]]; try (unfold zlen in Lp; cbn [length] in Lp; lia).
-    cbn [Z.to_nat resize_words firstn repeat app Nat.sub length] in *.
-    exists pw, kids, cap2, rl2. split; [rewrite set_slots_one; reflexivity|]. split; [exact Hinv2|].
-    intros pre' tail Lp' Hwd Hbound.
-    pose proof (PostC pre' tail Lp') as R. replace (8 * (0 + 1)) with 8 in R by lia.
-    specialize (R ltac:(unfold word_is in Hwd; rewrite Hwd; unfold bytes_of_words; cbn [flat_map]; rewrite app_nil_r; reflexivity) Hbound 0 ltac:(lia)).
-    replace (zlen D + 8 * i + 8 * 0 + 8 * 0) with (zlen D + 8 * i) in R by lia.
-    rewrite Evi. cbn [sptrs]. unfold resize_ptrs in R. cbn [Z.to_nat Pos.to_nat Pos.iter_op Nat.add firstn length Nat.sub repeat app] in R.
-    exact R. }
-  destruct (fold_res (iota (Z.to_nat n)) (dstw D1 cap1 m rl) step) as [w3| |] eqn:E1; try discriminate H. cbn [bind] in H.
-  destruct (sem_loop step m (zlen D) (Z.to_nat n) P ltac:(lia) Hi1 Hstep (Z.to_nat n) (le_n _) D1 cap1 rl w3
-                     ltac:(split; lia) ltac:(rewrite L1; lia) E1)
-    as (words & kids & cap2 & rl2 & Lw & -> & Hinvk & PostL).
-  assert (Edata : set_slots D1 (zlen D) words = D ++ bytes_of_words words).
-  { unfold D1. replace (Z.to_nat (8 * n)) with (8 * length words)%nat by lia. apply set_slots_end. }
-  rewrite Edata in H.
-  cbn [p_comp p_seg p_off dstl] in H.
-  assert (Elr : list_raw dstl = Ok (rawListPointer 0 6 n)) by reflexivity.
-  rewrite Elr in H. cbn [bind] in H.
-  unfold place in H. cbn [w_dst dstw] in H. change (0 =? 0) with true in H. cbv iota in H. unfold lift0 in H.
-  assert (Lbw : zlen (bytes_of_words words) = 8 * n) by (unfold zlen; rewrite bow_length; lia).
-  assert (Lk0 : 0 <= zlen kids) by (unfold zlen; lia).
-  assert (Hk2 : zlen D + 8 * n + zlen kids <= BOUND).
-  { destruct Hinvk as [_ X]. rewrite zlen_app, L1 in X. unfold BOUND. lia. }
-  rewrite writeRaw_seg0 in H by (rewrite ?zlen_app, ?Lbw; unfold BOUND in *; lia). cbn [bind] in H.
-  apply Ok_inj in H. subst w'.
-  set (word := withOffset (rawListPointer 0 6 n) (nearPointerOffset a (zlen D))) in *.
-  exists word, (bytes_of_words words ++ kids), cap2, rl2.
-  split.
-  { unfold dstw, w_set_dst. cbn [w_src w_src_rl]. f_equal. f_equal. rewrite <- app_assoc. apply put_word_app_left; lia. }
-  split.
-  { unfold hinv in *. rewrite !zlen_app in *. rewrite L1 in Hinvk. rewrite Lbw. lia. }
-  intros pre' tail Lp' Hw Hbound.
-  set (M := pre' ++ (bytes_of_words words ++ kids) ++ tail) in *.
-  assert (LM : zlen M = zlen D + 8 * n + zlen kids + zlen tail) by (unfold M; rewrite !zlen_app, Lbw; lia).
-  assert (Lt0 : 0 <= zlen tail) by (unfold zlen; lia).
-  assert (HwM : word_is M a word) by (unfold word_is, M in *; rewrite sub_app_l by lia; exact Hw).
-  destruct (read_near_list true M a (zlen D) 6 n 1 ltac:(lia) Hlen Ha Ham ltac:(lia) ltac:(unfold BOUND in *; lia) Z0 Hi1) as (rl' & RR).
-  - cbv zeta. rewrite (elementSize_raw 6 n) by lia. change (6 =? 1) with false. cbv iota.
-    change (totalSize (es_of 6)) with 8. lia.
-  - exact HwM.
-  - lia.
-  - cbv zeta in RR. rewrite (elementSize_raw 6 n) in RR by lia. change (6 =? 1) with false in RR. cbv iota in RR.
-    change (es_of 6) with (mkOS 0 1) in RR.
-    set (q := mkPtr true 0 (zlen D) n (mkOS 0 1) (uint_dec 1) KList false false false) in *.
-    exists 1, 4294967288, q, rl'. split; [exact RR|]. intros mid caps.
-    assert (EM : M = (pre' ++ bytes_of_words words) ++ kids ++ tail) by (unfold M; rewrite <- !app_assoc; reflexivity).
-    assert (Hblock : sub (pre' ++ bytes_of_words words) (zlen D) (8 * Z.of_nat (Z.to_nat n)) = bytes_of_words words).
-    { rewrite sub_app_r by lia. rewrite Lp', Z.sub_diag. unfold sub. cbn [Z.to_nat skipn]. apply firstn_all2.
-      rewrite bow_length. lia. }
-    apply den_ptrs; try reflexivity; try assumption.
-    intros i Hi0. cbn [q p_len] in Hi0.
-    destruct (K i Hi0) as (dep & rlk & q0 & rlk' & vi & RK & DK & Evi).
-    pose proof (PostL (pre' ++ bytes_of_words words) tail ltac:(rewrite zlen_app, Lbw, L1; lia) Hblock i ltac:(lia)) as R.
-    unfold P in R. rewrite <- EM in R. specialize (R Hbound).
-    destruct R as (dep1 & rl1 & q1 & rl1' & R1 & D1').
-    exists dep1, rl1, q1, rl1', vi. cbn [q p_seg p_off]. unfold seg_of. cbn [p_seg Z.to_nat nth].
-    split; [exact R1|]. split; [|exact Evi]. rewrite Evi in D1'. cbn [sptrs nthv Z.to_nat nth] in D1'. exact (D1' mid caps).
-Qed.
-
-(* den of a struct of the single segment M from its block: data words and pointer slots *)
-Lemma struct_den M q A dn pn dws vs' :
-  p_valid q = true -> p_kind q = KStruct -> p_seg q = 0 -> p_off q = A -> p_size q = mkOS (8 * dn) pn ->
-  0 <= A -> 0 <= dn <= 65535 -> 0 <= pn < 65536 -> A + 8 * dn + 8 * pn <= zlen M -> zlen M <= BOUND ->
-  zlen dws = dn -> Forall w64 dws -> sub M A (8 * dn) = bytes_of_words dws ->
-  zlen vs' = pn ->
-  (forall i, 0 <= i < pn -> reads_as M (A + 8 * dn + 8 * i) (nthv vs' i)) ->
-  forall mid caps, den true [M] mid caps q (VStruct dws vs').
-Proof.
-  intros Hv Hk Hs Ho Hsz HA Hdn Hpn Hb Hl Ldw Hw Hsub Lvs Hp mid caps.
-  rewrite <- (words_of_bytes_of_words dws Hw).
-  apply den_struct; try assumption.
-  - rewrite Hsz. unfold wf_size. cbn [DataSize PointerCount]. lia.
-  - unfold seg_of. rewrite Hs, Ho, Hsz. cbn [Z.to_nat nth DataSize]. rewrite slice_ok by (unfold BOUND in *; lia).
-    rewrite Hsub. reflexivity.
-  - rewrite Hsz. exact Lvs.
-  - intros i Hi. rewrite Hsz in Hi. cbn [PointerCount] in Hi.
-    destruct (Hp i Hi) as (dep & rl & q0 & rl' & R & Dq). exists dep, rl, q0, rl'.
-    unfold seg_of. rewrite Hs. cbn [Z.to_nat nth].
-    rewrite pointerAddress_eq by (rewrite ?Ho, ?Hsz; cbn [DataSize]; unfold BOUND in *; lia).
-    rewrite Ho, Hsz. cbn [DataSize]. split; [exact R|exact (Dq mid caps)].
-Qed.
-
-
-(* ------------------------------------------------------------------ struct lists *)
-Lemma wp_comp_list f : P_cs f -> forall D cap rl a src vs fc w',
-  hinv D -> 0 <= a -> a mod 8 = 0 -> a + 8 <= zlen D ->
-  wf_ptr m src -> caligned src -> ctag_ok m src -> den true m 0 [] src (VList LComp vs) -> forallb cvdom vs = true ->
-  write_ptr (S f) true (dstw D cap m rl) 0 a InSrc src fc = Ok w' ->
-  exists word body cap' rl',
-    w' = dstw (put_word D a word ++ body) cap' m rl' /\ hinv (D ++ body) /\
-    forall pre' tail, zlen pre' = zlen D -> word_is pre' a word -> zlen (pre' ++ body ++ tail) <= BOUND ->
-      reads_as (pre' ++ body ++ tail) a (VList LComp vs).
-Proof.
-  intros HC D cap rl a src vs fc w' Hi Ha Ham Hab Hwf Hcal Hctg D0 Hsd H.
-  destruct (den_comp_inv m _ _ D0) as (Hv & Hk & Hb & Hc & Hws & Lvs & DE).
-  destruct (Hcal Hc) as [Hal _].
-  destruct (Hctg Hv Hk Hc) as (Ho8 & t & Et & T64 & Tpt & Tsz & Tn).
-  destruct (Hwf Hv) as (Hseg & Hobj). unfold wf_obj in Hobj. rewrite Hk, Hb in Hobj.
-  destruct Hobj as (Ho & Hlen & _ & Hbd).
-  assert (Hsl : zlen (seg_of m src) <= 4294967288) by (apply seg_of_ok; assumption).
-  destruct Hi as [Hi1 Hi2]. assert (Z0 : 0 <= zlen D) by (unfold zlen; lia).
-  destruct Hws as [Hws1 Hws2].
-  set (n := p_len src) in *. set (dn := DataSize (p_size src) / 8) in *. set (pn := PointerCount (p_size src)) in *.
-  set (bw := dn + pn) in *.
-  assert (Eds : DataSize (p_size src) = 8 * dn) by (unfold dn; lia).
-  assert (Esize : p_size src = mkOS (8 * dn) pn).
-  { unfold pn. rewrite <- Eds. destruct (p_size src) as [ds pc]. reflexivity. }
-  assert (Ets : totalSize (p_size src) = 8 * bw) by (unfold totalSize, pointerSize, u32, bw, pn; rewrite Eds; lia).
-  rewrite Ets in Hbd.
-  assert (Shape : forall i, 0 <= i < n -> exists ws ps, nthv vs i = VStruct ws ps /\ zlen ws = dn /\ zlen ps = pn).
-  { intros i Hi0. destruct (comp_elem_shape (mkCfg 0 0 true true) m Hm src vs i Hwf Hv Hk Hb Hal Hi0 (DE i Hi0)) as (ws & ps & E & L1 & L2).
-    exists ws, ps. split; [exact E|]. split; [lia|exact L2]. }
-  assert (Esz : list_allocSize src = 8 * n * bw + 8).
-  { unfold list_allocSize. rewrite Hv, Hb, Hc, Ets. cbn [negb]. fold n.
-    rewrite times_some by (unfold maxSegmentSize; nia). unfold u32. nia. }
-  assert (Bnb : 0 <= n * bw /\ 8 * (n * bw) <= 4294967288) by nia.
-  rewrite write_ptr_S in H. rewrite Hv, Hk in H. cbn [negb] in H.
-  replace (fc || is_src InSrc) with true in H by (cbn [is_src]; rewrite Bool.orb_true_r; reflexivity).
-  cbv zeta in H. rewrite Esz in H. cbn [w_dst dstw] in H.
-  destruct (alloc (seg0 D cap) 0 (8 * n * bw + 8)) as [[[m1 sid1] addr]| |] eqn:Ea; try discriminate H.
-  pose proof (alloc_bound D cap (8 * n * bw + 8) m1 sid1 addr ltac:(lia) ltac:(lia) Ea) as Hbound0.
-  destruct (alloc_seg0 D cap (8 * n * bw + 8) m1 sid1 addr Hi1 ltac:(lia) Ea) as (cap1 & -> & -> & ->).
-  rewrite (padToWord_mult (8 * n * bw + 8)) in * by lia.
-  cbn [bind] in H. rewrite Hc in H. cbn [w_segs w_set_dst w_src w_dst dstw] in H.
-  change (nth (Z.to_nat (p_seg src)) m []) with (seg_of m src) in H.
-  rewrite (u32_id (p_off src - 8)) in H by lia. rewrite Et in H. cbn [bind] in H.
-  unfold lift0 in H. cbn [w_dst] in H.
-  assert (Lz : zlen (D ++ repeat 0 (Z.to_nat (8 * n * bw + 8))) = zlen D + 8 * n * bw + 8)
-    by (rewrite zlen_app; unfold zlen; rewrite repeat_length; lia).
-  rewrite writeRaw_seg0 in H by lia. cbn [bind] in H.
-  assert (EA : addSize (zlen D) 8 = Some (zlen D + 8)).
-  { unfold addSize, maxSegmentSize. cbv zeta. destruct (zlen D + 8 >? 4294967288) eqn:E; [lia|reflexivity]. }
-  rewrite EA in H. cbn [bind] in H. rewrite (u32_id (8 * n * bw + 8 - 8)) in H by lia.
-  replace (8 * n * bw + 8 - 8) with (8 * n * bw) in H by lia.
-  assert (Edata1 : put_word (D ++ repeat 0 (Z.to_nat (8 * n * bw + 8))) (zlen D) t
-                   = (D ++ le_encode 8 t) ++ repeat 0 (Z.to_nat (8 * n * bw))).
-  { pose proof (put_word_mid D (repeat 0 (Z.to_nat (8 * n * bw + 8))) [] t ltac:(rewrite repeat_length; lia)) as E.
-    rewrite !app_nil_r in E. fold (zlen D) in E. rewrite E, skipn_repeat, <- app_assoc. f_equal. f_equal. f_equal. lia. }
-  rewrite Edata1 in H.
-  set (DT := D ++ le_encode 8 t) in *.
-  assert (LT : zlen DT = zlen D + 8) by (unfold DT; rewrite zlen_app; unfold zlen; rewrite le_encode_length; lia).
-  set (D1 := DT ++ repeat 0 (Z.to_nat (8 * n * bw))) in *.
-  assert (L1 : zlen D1 = zlen D + 8 + 8 * n * bw) by (unfold D1; rewrite zlen_app, LT; unfold zlen; rewrite repeat_length; lia).
-  rewrite Hb in H. cbn [orb] in H.
-  set (dstl := mkPtr true 0 (zlen D + 8) n (p_size src) maxDepth KList true false false) in *.
-  (* the elements are struct pointers of the same sizes as the source's *)
-  set (elemq := fun i : Z => mkPtr true 0 (zlen D + 8 + i * (8 * bw)) 0 (p_size src) 0 KStruct false false true).
-  set (P := fun (i : Z) (M : list Z) => zlen M <= BOUND -> forall mid caps, den true [M] mid caps (elemq i) (nthv vs i)).
-  assert (Finish : forall cap3 rl3 (w3 : world) words kids,
-            w3 = dstw (set_slots D1 (zlen D + 8) words ++ kids) cap3 m rl3 -> zlen words = bw * n -> hinv (D1 ++ kids) ->
-            (forall pre' tail, zlen pre' = zlen D1 -> sub pre' (zlen D + 8) (8 * bw * n) = bytes_of_words words ->
-               forall i, 0 <= i < n -> P i (pre' ++ kids ++ tail)) ->
-            (do raw <- list_raw dstl; place w3 0 a (p_seg dstl) (if p_comp dstl then u32 (p_off dstl - 8) else p_off dstl) raw) = Ok w' ->
-            exists word body cap' rl',
-              w' = dstw (put_word D a word ++ body) cap' m rl' /\ hinv (D ++ body) /\
-              forall pre' tail, zlen pre' = zlen D -> word_is pre' a word -> zlen (pre' ++ body ++ tail) <= BOUND ->
-                reads_as (pre' ++ body ++ tail) a (VList LComp vs)).
-  { intros cap3 rl3 w3 words kids -> Lw Hinvk PostL HP.
-    assert (Edata : set_slots D1 (zlen D + 8) words = DT ++ bytes_of_words words).
-    { unfold D1. replace (Z.to_nat (8 * n * bw)) with (8 * length words)%nat by (unfold zlen in *; lia).
-      rewrite <- LT. apply set_slots_end. }
-    rewrite Edata in HP.
-    assert (Elr : list_raw dstl = Ok (rawListPointer 0 7 (n * bw))).
-    { unfold list_raw, dstl. cbn [p_valid p_comp p_size p_len negb]. unfold totalWordCount, dataWordCount. rewrite Eds.
-      replace (8 * dn mod 8 =? 0) with true by lia. fold pn.
-      replace (8 * dn / 8) with dn by lia. fold bw.
-      f_equal. f_equal. unfold s32. cbv zeta.
-      repeat match goal with |- context [if ?c then _ else _] => destruct c eqn:? end; nia. }
-    rewrite Elr in HP. cbn [bind p_comp p_seg p_off dstl] in HP. rewrite (u32_id (zlen D + 8 - 8)) in HP by lia.
-    replace (zlen D + 8 - 8) with (zlen D) in HP by lia.
-    unfold place in HP. cbn [w_dst dstw] in HP. change (0 =? 0) with true in HP. cbv iota in HP. unfold lift0 in HP.
-    assert (Lbw : zlen (bytes_of_words words) = 8 * n * bw) by (unfold zlen in *; rewrite bow_length; lia).
-    assert (Lk0 : 0 <= zlen kids) by (unfold zlen; lia).
-    assert (Hk2 : zlen D + 8 + 8 * n * bw + zlen kids <= BOUND).
-    { destruct Hinvk as [_ X]. rewrite zlen_app, L1 in X. unfold BOUND. lia. }
-    rewrite writeRaw_seg0 in HP by (rewrite ?zlen_app, ?LT, ?Lbw; unfold BOUND in *; lia). cbn [bind] in HP.
-    apply Ok_inj in HP. subst w'.
-    set (word := withOffset (rawListPointer 0 7 (n * bw)) (nearPointerOffset a (zlen D))) in *.
-    exists word, ((le_encode 8 t ++ bytes_of_words words) ++ kids), cap3, rl3.
-    split.
-    { unfold dstw, w_set_dst. cbn [w_src w_src_rl]. f_equal. f_equal. unfold DT.
-      rewrite <- !app_assoc. apply put_word_app_left; lia. }
-    split.
-    { assert (L8' : zlen (le_encode 8 t) = 8) by (unfold zlen; rewrite le_encode_length; lia).
-      destruct Hinvk as [X1 X2]. rewrite zlen_app, L1 in X1, X2. split; rewrite !zlen_app, L8', Lbw; lia. }
-    intros pre' tail Lp' Hw Hbound.
-    set (M := pre' ++ ((le_encode 8 t ++ bytes_of_words words) ++ kids) ++ tail) in *.
-    assert (L8 : zlen (le_encode 8 t) = 8) by (unfold zlen; rewrite le_encode_length; lia).
-    assert (LM : zlen M = zlen D + 8 + 8 * n * bw + zlen kids + zlen tail) by (unfold M; rewrite !zlen_app, Lbw, L8; lia).
-    assert (Lt0 : 0 <= zlen tail) by (unfold zlen; lia).
-    assert (HwM : word_is M a word) by (unfold word_is, M in *; rewrite sub_app_l by lia; exact Hw).
-    assert (HtM : word_is M (zlen D) t).
-    { unfold word_is, M. rewrite sub_app_r by lia. rewrite Lp', Z.sub_diag. rewrite <- !app_assoc.
-      rewrite sub_app_l by lia. unfold sub. cbn [Z.to_nat skipn]. apply firstn_all2. rewrite le_encode_length. lia. }
-    assert (Owf : os_wf (p_size src)) by (unfold os_wf; fold pn; lia).
-    assert (Hwc : 0 <= n * bw < 536870912) by (split; [lia|nia]).
-    assert (Hts' : totalSize (p_size src) * n = 8 * (n * bw)) by (rewrite Ets; lia).
-    assert (HrdM : readRawPointer M (zlen D) = Ok t) by (apply rd_word; try assumption; unfold BOUND in *; lia).
-    destruct (read_near_comp true M a (zlen D) n (p_size src) (n * bw) t 1 Hwc ltac:(lia) Owf Hts' Ha Ham ltac:(lia)
-                ltac:(unfold BOUND in *; lia) Z0 Hi1 ltac:(lia) HwM HrdM Tpt Tsz Tn ltac:(lia)) as (rl' & RR).
-    { set (q := mkPtr true 0 (zlen D + 8) n (p_size src) (uint_dec 1) KList true false false) in *.
-      exists 1, 4294967288, q, rl'. split; [exact RR|]. intros mid caps.
-      assert (EM : M = (pre' ++ le_encode 8 t ++ bytes_of_words words) ++ kids ++ tail) by (unfold M; rewrite <- !app_assoc; reflexivity).
-      assert (Hblock : sub (pre' ++ le_encode 8 t ++ bytes_of_words words) (zlen D + 8) (8 * bw * n) = bytes_of_words words).
-      { rewrite app_assoc. rewrite sub_app_r by (rewrite ?zlen_app, ?L8; lia). rewrite zlen_app, L8, Lp'.
-        replace (zlen D + 8 - (zlen D + 8)) with 0 by lia. unfold sub. cbn [Z.to_nat skipn]. apply firstn_all2. unfold zlen in Lbw. lia. }
-      apply den_comp; try reflexivity; try assumption.
-      + split; assumption.
-      + intros i Hi0. cbn [q p_len] in Hi0.
-        pose proof (PostL (pre' ++ le_encode 8 t ++ bytes_of_words words) tail ltac:(rewrite !zlen_app, L8, Lbw, L1; lia) Hblock i Hi0) as R.
-        unfold P in R. rewrite <- EM in R. specialize (R Hbound mid caps).
-        eapply den_core; [|exact R]. unfold elemq, elem_ptr, q. cbn [p_seg p_off p_size]. rewrite Ets.
-        repeat split. } }
-  destruct (PointerCount (p_size src) =? 0) eqn:Epc.
-  - (* elements without pointers: the bytes are copied *)
-    assert (Epn : pn = 0) by (unfold pn; lia).
-    unfold copy_bytes in H. cbn [w_segs w_src w_dst w_set_dst dstw] in H.
-    change (nth (Z.to_nat (p_seg src)) m []) with (seg_of m src) in H.
-    rewrite slice_ok in H by (unfold bw in *; nia). cbn [bind] in H.
-    set (bs := sub (seg_of m src) (p_off src) (8 * n * bw)) in *.
-    assert (Lbs : zlen bs = 8 * n * bw) by (unfold bs; apply sub_length; nia).
-    unfold lift0 in H. cbn [w_dst] in H.
-    rewrite seg_write_raw in H; [| lia | fold bs; rewrite ?L1, ?Lbs; lia | rewrite ?L1; lia].
-    cbn [bind] in H.
-    assert (Ewb : write_bytes D1 (zlen D + 8) bs = DT ++ bs).
-    { unfold D1. rewrite <- LT. rewrite write_bytes_end by (unfold zlen in *; lia).
-      replace (Z.to_nat (8 * n * bw) - length bs)%nat with 0%nat by (unfold zlen in *; lia). cbn [repeat]. rewrite app_nil_r. reflexivity. }
-    rewrite Ewb in H. cbn [bind] in H.
-    assert (Hbsok : bytes_ok bs) by (unfold bs, sub; apply Forall_firstn', Forall_skipn'; apply (seg_of_ok m src Hm)).
-    assert (Hmod : (length bs mod 8 = 0)%nat).
-    { apply Nat2Z.inj. rewrite Nat2Z.inj_mod. unfold zlen in Lbs. rewrite Lbs. change (Z.of_nat 8) with 8. change (Z.of_nat 0) with 0. lia. }
-    set (words := words_of_bytes bs).
-    assert (Ebw : bytes_of_words words = bs) by (apply bow_wob; assumption).
-    assert (Lw : zlen words = bw * n).
-    { pose proof (f_equal (@length Z) Ebw) as E. rewrite bow_length in E. unfold zlen in *. lia. }
-    assert (Ew : DT ++ bs = set_slots D1 (zlen D + 8) words ++ []).
-    { rewrite app_nil_r. unfold D1. rewrite <- LT. replace (Z.to_nat (8 * n * bw)) with (8 * length words)%nat by (unfold zlen in *; lia).
-      rewrite set_slots_end, Ebw. reflexivity. }
-    rewrite Ew in H.
-    refine (Finish cap1 rl _ words [] eq_refl Lw _ _ H).
-    + rewrite app_nil_r. split; lia.
-    + intros pre' tail Lp' Hs i Hi0 Hbound mid caps. cbn [app] in *.
-      destruct (Shape i Hi0) as (ws & ps & Ev & Lws & Lps). rewrite Ev.
-      assert (Hib : 0 <= i * (8 * bw) /\ i * (8 * bw) + 8 * bw <= n * (8 * bw)) by nia.
-      assert (Hdb : bw = dn) by (unfold bw; lia).
-      assert (Hz1 : i * pn = 0 /\ n * pn = 0) by (rewrite Epn; lia).
-      assert (Eps : ps = []) by (destruct ps; [reflexivity|unfold zlen in Lps; cbn [length] in Lps; lia]). subst ps.
-      (* the source element's words are the words of its bytes *)
-      pose proof (DE i Hi0) as Dei. rewrite Ev in Dei.
-      destruct (den_struct_inv _ _ _ _ _ _ Dei eq_refl eq_refl) as (d & vs0 & Evd & _ & Sl & _ & _).
-      inversion Evd; subst ws vs0; clear Evd. cbn [elem_ptr p_size p_off p_seg seg_of] in Sl.
-      rewrite Ets, Eds in Sl. change (nth (Z.to_nat (p_seg src)) m []) with (seg_of m src) in Sl.
-      change (seg_of m (elem_ptr src i)) with (seg_of m src) in Sl.
-      rewrite slice_ok in Sl by lia. apply Ok_inj in Sl. subst d.
-      assert (Lt0 : 0 <= zlen tail) by (unfold zlen; lia).
-      set (di := sub (seg_of m src) (p_off src + i * (8 * bw)) (8 * dn)) in *.
-      assert (Hdiok : bytes_ok di) by (unfold di, sub; apply Forall_firstn', Forall_skipn'; apply (seg_of_ok m src Hm)).
-      assert (Ldi : zlen di = 8 * dn) by (unfold di; apply sub_length; lia).
-      assert (Hsz1 : zlen D + 8 + i * (8 * bw) + 8 * dn + 8 * 0 <= zlen (pre' ++ tail)) by (rewrite zlen_app, Lp', L1; lia).
-      assert (Hw64 : Forall w64 (words_of_bytes di)) by (apply (wob_w64 (length di)); [lia|exact Hdiok]).
-      assert (Hsub : sub (pre' ++ tail) (zlen D + 8 + i * (8 * bw)) (8 * dn) = bytes_of_words (words_of_bytes di)).
-      { rewrite sub_app_l by (rewrite ?Lp', ?L1; lia).
-        replace (sub pre' (zlen D + 8 + i * (8 * bw)) (8 * dn))
-          with (sub (sub pre' (zlen D + 8) (8 * bw * n)) (i * (8 * bw)) (8 * dn)) by (apply sub_sub; lia).
-        rewrite Hs, Ebw. unfold bs. rewrite sub_sub by lia. fold di.
-        symmetry. apply bow_wob; [exact Hdiok|].
-        apply Nat2Z.inj. rewrite Nat2Z.inj_mod. unfold zlen in Ldi. rewrite Ldi. change (Z.of_nat 8) with 8. change (Z.of_nat 0) with 0. lia. }
-      apply (struct_den (pre' ++ tail) (elemq i) (zlen D + 8 + i * (8 * bw)) dn 0 (words_of_bytes di) []);
-        try reflexivity; try lia; try assumption;
-        try (unfold elemq; cbn [p_size]; rewrite Esize, Epn; reflexivity); try (intros j Hj; lia).
-  - (* elements with pointers: copyStruct per element *)
-    unfold list_len in H. rewrite Hv in H. fold n in H.
-    change (w_set_dst (w_set_dst (dstw D cap m rl) (seg0 (D ++ repeat 0 (Z.to_nat (8 * n * bw + 8))) cap1)) (seg0 D1 cap1)) with (dstw D1 cap1 m rl) in H.
-    match type of H with context [fold_res (iota (Z.to_nat n)) ?w0 ?st] => set (step := st) in * end.
-    assert (Hstep : forall i D0' cap0 rl0 w0, 0 <= i < Z.of_nat (Z.to_nat n) -> hinv D0' ->
-              (zlen D + 8) + 8 * bw * Z.of_nat (Z.to_nat n) <= zlen D0' ->
-              step (dstw D0' cap0 m rl0) i = Ok w0 ->
-              exists block body cap' rl',
-                zlen block = bw /\
-                w0 = dstw (set_slots D0' ((zlen D + 8) + 8 * bw * i) block ++ body) cap' m rl' /\ hinv (D0' ++ body) /\
-                forall pre' tail, zlen pre' = zlen D0' -> sub pre' ((zlen D + 8) + 8 * bw * i) (8 * bw) = bytes_of_words block ->
-                  P i (pre' ++ body ++ tail)).
-    { intros i D0' cap0 rl0 w0 Hi0 Hinv0 Hb0 Hs0. unfold step in Hs0.
-      assert (Hin : 0 <= i < n) by lia.
-      assert (Hblk : bw * i + bw <= bw * n) by (unfold bw in *; nia).
-      set (A := (zlen D + 8) + 8 * bw * i) in *.
-      assert (EAl : list_struct true dstl i
-                   = Ok (mkPtr true 0 A 0 (p_size src) (if true && (maxDepth =? 0) then 0 else uint_dec maxDepth) KStruct false false true)).
-      { unfold list_struct, dstl. cbn [p_valid p_len p_bit p_off p_size p_seg p_depth negb orb].
-        destruct ((i <? 0) || (i >=? n)) eqn:E1; [lia|]. rewrite Ets.
-        rewrite CanonMListP.element_some by (unfold bw in *; nia). f_equal. f_equal. unfold A. lia. }
-      fold dstl in Hs0. rewrite EAl in Hs0. cbn [bind] in Hs0.
-      set (de := mkPtr true 0 A 0 (p_size src) (if true && (maxDepth =? 0) then 0 else uint_dec maxDepth) KStruct false false true) in *.
-      assert (Ex : exists se, list_struct true src i = Ok se).
-      { unfold list_struct. rewrite Hv, Hb. cbn [negb orb]. fold n.
-        destruct ((i <? 0) || (i >=? n)) eqn:E; [lia|].
-        destruct (element (p_off src) i (totalSize (p_size src))); eexists; reflexivity. }
-      destruct Ex as (se & El). rewrite El in Hs0. cbn [bind] in Hs0.
-      assert (Hbi : 0 <= p_off src + i * totalSize (p_size src) <= zlen (seg_of m src)) by (rewrite Ets; unfold bw in *; nia).
-      pose proof (list_struct_elem m src i se Hm Hv Hb ltac:(lia) Hbi El) as Hcore.
-      pose proof (list_struct_safe true m src i Hm (conj Hwf (fun _ => Hk)) ltac:(unfold list_len; rewrite Hv; lia)) as SS.
-      rewrite El in SS. cbn [res_sat] in SS. destruct SS as [We Ke].
-      destruct Hcore as (Cv & Cs & Co & Cl & Cz & Ck & Cc & Cb).
-      assert (Ve : p_valid se = true) by (rewrite Cv; reflexivity).
-      assert (Kse : p_kind se = KStruct) by (rewrite Ck; reflexivity).
-      assert (De : den true m 0 [] se (nthv vs i)).
-      { eapply den_core; [|apply (DE i); lia]. unfold same_core. repeat split; symmetry; assumption. }
-      assert (Ale : aligned se) by (intros _; rewrite Cz; exact Hal).
-      destruct (Shape i Hin) as (ws & ps & Ev & Lws & Lps).
-      rewrite Ev in De.
-      assert (SDi : forallb cvdom ps = true).
-      { assert (SD0 : cvdom (nthv vs i) = true).
-        { unfold nthv. eapply forallb_In; [exact Hsd|]. apply nth_In. unfold zlen in *. lia. }
-        rewrite Ev in SD0. exact SD0. }
-      assert (Hdst : dst_at de A dn pn) by (unfold dst_at, de; cbn [p_valid p_seg p_off p_size]; repeat split; try reflexivity; exact Esize).
-      destruct (HC D0' cap0 rl0 de se ws ps A dn pn w0 Hinv0 Hdst ltac:(unfold A, bw in *; nia) ltac:(unfold A; lia)
-                   ltac:(lia) ltac:(unfold pn; lia) ltac:(unfold A, bw in *; nia) Ve Kse We Ale De SDi Hs0)
-        as (pwords & kids & cap2 & rl2 & Lp & -> & Hinv2 & PostC).
-      assert (Edw : resize_words ws (Z.to_nat dn) = ws).
-      { replace (Z.to_nat dn) with (length ws) by (unfold zlen in Lws; lia). apply resize_words_id. }
-      rewrite Edw in *.
-      exists (ws ++ pwords), kids, cap2, rl2.
-      split; [rewrite zlen_app; unfold bw; lia|]. split; [reflexivity|]. split; [exact Hinv2|].
-      intros pre' tail Lp' Hs Hbound mid caps. rewrite Ev.
-      assert (Lt0 : 0 <= zlen tail) by (unfold zlen; lia). assert (Lk0 : 0 <= zlen kids) by (unfold zlen; lia).
-      destruct Hinv0 as [Hu1 Hu2].
-      assert (Hsz1 : A + 8 * dn + 8 * pn <= zlen (pre' ++ kids ++ tail)) by (rewrite !zlen_app, Lp'; unfold A, bw in *; nia).
-      assert (Hw64 : Forall w64 ws).
-      { destruct (den_struct_inv _ _ _ _ _ _ De Ve Kse) as (d & vs0 & Evd & _ & Sl & _ & _). inversion Evd; subst.
-        apply (wob_w64 (length d)); [lia|]. eapply slice_bytes_ok; eassumption. }
-      assert (Hsub : sub (pre' ++ kids ++ tail) A (8 * dn) = bytes_of_words ws).
-      { rewrite sub_app_l by (rewrite ?Lp'; unfold A, bw in *; nia).
-        replace (sub pre' A (8 * dn)) with (sub (sub pre' A (8 * bw)) 0 (8 * dn)) by (rewrite sub_sub by (unfold bw; lia); f_equal; lia).
-        rewrite Hs, bow_app, sub_app_l by (unfold zlen; rewrite ?bow_length; unfold zlen in *; lia).
-        unfold sub. cbn [Z.to_nat skipn]. apply firstn_all2. rewrite bow_length. unfold zlen in *. lia. }
-      assert (Hkids : forall j, 0 <= j < pn -> reads_as (pre' ++ kids ++ tail) (A + 8 * dn + 8 * j) (nthv ps j)).
-      { intros j Hj.
-        pose proof (PostC pre' tail Lp' ltac:(unfold bw in Hs; exact Hs) Hbound j Hj) as R.
-        replace (Z.to_nat pn) with (length ps) in R by (unfold zlen in Lps; lia). rewrite resize_ptrs_id in R. exact R. }
-      apply (struct_den (pre' ++ kids ++ tail) (elemq i) A dn pn ws ps); try reflexivity; try lia; try assumption;
-        try (unfold elemq, A; cbn [p_off p_size]; try exact Esize; lia); try (unfold pn; lia). }
-    destruct (fold_res (iota (Z.to_nat n)) (dstw D1 cap1 m rl) step) as [w3| |] eqn:E1; try discriminate H. cbn [bind] in H.
-    assert (Hn0 : Z.of_nat (Z.to_nat n) = n) by lia.
-    destruct (sem_blocks_loop step m (zlen D + 8) bw (Z.to_nat n) P ltac:(lia) ltac:(lia) ltac:(unfold bw; lia) Hstep
-                 (Z.to_nat n) (le_n _) D1 cap1 rl w3 ltac:(split; lia) ltac:(rewrite L1, Hn0; lia) E1)
-      as (words & kids & cap2 & rl2 & Lw & -> & Hinvk & PostL).
-    rewrite Hn0 in *.
-    refine (Finish cap2 rl2 _ words kids eq_refl Lw Hinvk _ H).
-    intros pre' tail Lp' Hs i Hi0. apply (PostL pre' tail Lp' Hs i Hi0).
-Qed.
-
-Lemma wp_step f : P_cs f -> P_wp (S f).
+Lemma wp_step f : CopyValueDefs.P_cs m f -> CopyValueDefs.P_wp m (S f).
 Proof.
   intros HC D cap rl a src v fc w' Hi Ha Ham Hab Hwf Hal Hcal Hctg D0 Hsd H.
   pose proof H as H0. pose proof Hi as Hinv0.
@@ -910,17 +21,17 @@ Proof.
     unfold lift0 in H. cbn [w_dst dstw] in H. rewrite writeRaw_seg0 in H by lia. cbn [bind] in H.
     apply Ok_inj in H. subst w'.
     pose proof (den_null_iff _ _ _ _ _ _ D0) as Hn. rewrite Hv in Hn. destruct v; try discriminate.
-    exists 0, [], cap, rl. rewrite !app_nil_r. split; [reflexivity|]. split; [split; assumption|].
+    exists 0, [], cap, rl. rewrite !app_nil_r. split; [reflexivity|]. split; [split; assumption|]. split; [constructor|].
     intros pre' tail Lp Hw Hbound. cbn [app] in *.
     apply reads_null; try (rewrite zlen_app in *; unfold zlen in *; lia).
     unfold word_is in *. rewrite sub_app_l by lia. exact Hw. }
   destruct v as [| |ws vs|k vs|bits]; try discriminate Hsd.
   { pose proof (den_null_iff _ _ _ _ _ _ D0) as Hn. rewrite Hv in Hn. discriminate. }
   2:{ destruct k; try discriminate Hsd;
-        try (apply (wp_raw_list f D cap rl a src (VList _ vs) fc w'); try assumption; split; discriminate).
-      - apply (wp_ptr_list f HC D cap rl a src vs fc w'); assumption.
-      - apply (wp_comp_list f HC D cap rl a src vs fc w'); assumption. }
-  2:{ apply (wp_raw_list f D cap rl a src (VBits bits) fc w'); try assumption. exact I. }
+        try (apply (wp_raw_list m Hm f D cap rl a src (VList _ vs) fc w'); try assumption; split; discriminate).
+      - apply (wp_ptr_list m Hm f HC D cap rl a src vs fc w'); assumption.
+      - apply (wp_comp_list m Hm f HC D cap rl a src vs fc w'); assumption. }
+  2:{ apply (wp_raw_list m Hm f D cap rl a src (VBits bits) fc w'); try assumption. exact I. }
   assert (Hk : p_kind src = KStruct) by (inversion D0; subst; congruence).
   rewrite Hk in H.
   destruct (den_struct_inv _ _ _ _ _ _ D0 Hv Hk) as (d & vs0 & Ev & Wz & Sl & Lvs & _).
@@ -942,7 +53,7 @@ Proof.
     assert (Ews : ws = []) by (destruct ws; [reflexivity|cbn [length] in Ebw; unfold zlen in Ld; lia]).
     assert (Evs : vs = []) by (destruct vs; [reflexivity|unfold zlen in Lvs; cbn [length] in Lvs; lia]).
     rewrite Ews, Evs.
-    exists w0, [], cap, rl. rewrite !app_nil_r. split; [reflexivity|]. split; [split; assumption|].
+    exists w0, [], cap, rl. rewrite !app_nil_r. split; [reflexivity|]. split; [split; assumption|]. split; [constructor|].
     intros pre' tail Lp Hw Hbound. cbn [app] in *.
     assert (Hw' : word_is (pre' ++ tail) a w0) by (unfold word_is in *; rewrite sub_app_l by lia; exact Hw).
     exists 1, 0, (mkPtr true 0 a 0 (mkOS 0 0) (uint_dec 1) KStruct false false false), 0.
@@ -972,7 +83,7 @@ Proof.
     assert (Hdst : dst_at dstp (zlen D) dn pn) by (unfold dst_at, dstp; cbn; repeat split; reflexivity).
     assert (Bdn : 0 <= dn <= 65535) by (unfold dn; lia). assert (Bpn : 0 <= pn < 65536) by (unfold pn; lia).
     destruct (HC D1 cap1 rl dstp src ws vs (zlen D) dn pn w2 ltac:(split; lia) Hdst Z0 Hi1 Bdn Bpn ltac:(lia)
-                 Hv Hk Hwf Hal D0 Hsd Ec) as (pwords & kids & cap2 & rl2 & Lp & -> & Hinv2 & PostC).
+                 Hv Hk Hwf Hal D0 Hsd Ec) as (pwords & kids & cap2 & rl2 & Lp & -> & Hinv2 & Bk & PostC).
     assert (Edw : resize_words ws (Z.to_nat dn) = ws).
     { replace (Z.to_nat dn) with (length ws) by (unfold zlen in Ld; lia). apply resize_words_id. }
     rewrite Edw in *.
@@ -999,6 +110,7 @@ Proof.
       rewrite <- app_assoc. apply put_word_app_left; lia. }
     split.
     { unfold hinv in *. rewrite !zlen_app in *. rewrite L1 in Hinv2. rewrite Lbb. lia. }
+    split; [apply Forall_app; split; [apply bow_bytes_ok|exact Bk]|].
     intros pre' tail Lp' Hw Hbound.
     set (M := pre' ++ (bytes_of_words blk ++ kids) ++ tail) in *.
     assert (LM : zlen M = zlen D + (8 * dn + 8 * pn) + zlen kids + zlen tail)
@@ -1030,14 +142,15 @@ Proof.
       rewrite resize_ptrs_id in R. exact R.
 Qed.
 
-Theorem P_all : forall f, P_wp f /\ P_cs f.
+Theorem P_all : forall f, CopyValueDefs.P_wp m f /\ CopyValueDefs.P_cs m f.
 Proof.
   induction f as [|f [IHw IHc]].
   - split.
     + intros D cap rl a src v fc w' _ _ _ _ _ _ _ _ _ _ H. discriminate H.
     + intros D cap rl dst s ws vs A dn pn w' _ _ _ _ _ _ _ _ _ _ _ _ _ H. discriminate H.
-  - split; [apply wp_step; exact IHc| apply cs_step; exact IHw].
+  - split; [apply wp_step; exact IHc| apply (CopyValueCs.cs_step m Hm); exact IHw].
 Qed.
+
 
 End Copy.
 
@@ -1048,15 +161,18 @@ Theorem copy_value_ptr : forall m f D cap rl a src v fc w',
   msg_ok m -> hinv D -> 0 <= a -> a mod 8 = 0 -> a + 8 <= zlen D ->
   wf_ptr m src -> aligned src -> caligned src -> ctag_ok m src -> den true m 0 [] src v -> cvdom v = true ->
   write_ptr f true (dstw D cap m rl) 0 a InSrc src fc = Ok w' ->
-  exists D' cap' rl', w' = dstw D' cap' m rl' /\ hinv D' /\ reads_as D' a v.
+  exists D' cap' rl', w' = dstw D' cap' m rl' /\ hinv D' /\ (bytes_ok D -> bytes_ok D') /\ reads_as D' a v.
 Proof.
   intros m f D cap rl a src v fc w' Hm Hi Ha Ham Hab Hwf Hal Hcal Hctg D0 Hsd H.
   destruct (P_all m Hm f) as [HW _].
-  destruct (HW D cap rl a src v fc w' Hi Ha Ham Hab Hwf Hal Hcal Hctg D0 Hsd H) as (word & body & cap' & rl' & -> & Hinv & Post).
+  destruct (HW D cap rl a src v fc w' Hi Ha Ham Hab Hwf Hal Hcal Hctg D0 Hsd H) as (word & body & cap' & rl' & -> & Hinv & Bb & Post).
   assert (Lp : zlen (put_word D a word) = zlen D) by (apply put_word_length; lia).
   exists (put_word D a word ++ body), cap', rl'. split; [reflexivity|].
   assert (Hinv' : hinv (put_word D a word ++ body)) by (unfold hinv in *; rewrite zlen_app in *; rewrite Lp; exact Hinv).
   split; [exact Hinv'|].
+  split.
+  { intros HbD. apply Forall_app. split; [|exact Bb]. unfold put_word. apply Forall_app. split; [apply Forall_firstn'; exact HbD|].
+    apply Forall_app. split; [apply le_encode_bytes|apply Forall_skipn'; exact HbD]. }
   specialize (Post (put_word D a word) [] Lp). rewrite app_nil_r in Post. apply Post.
   - unfold word_is, put_word, sub. rewrite skipn_app, skipn_all2 by (rewrite firstn_length; unfold zlen in *; lia).
     rewrite firstn_length. replace (Z.to_nat a - Nat.min (Z.to_nat a) (length D))%nat with 0%nat by (unfold zlen in *; lia).
@@ -1074,19 +190,22 @@ Theorem copy_value_struct : forall m f D cap rl dst s ws vs A dn pn w',
   p_valid s = true -> p_kind s = KStruct -> wf_ptr m s -> aligned s ->
   den true m 0 [] s (VStruct ws vs) -> forallb cvdom vs = true ->
   copy_struct f true (dstw D cap m rl) dst InSrc s = Ok w' ->
-  exists D' cap' rl', w' = dstw D' cap' m rl' /\ hinv D' /\
+  exists D' cap' rl', w' = dstw D' cap' m rl' /\ hinv D' /\ (bytes_ok D -> bytes_ok D') /\
     forall mid caps, den true [D'] mid caps dst (resize (VStruct ws vs) (Z.to_nat dn) (Z.to_nat pn)).
 Proof.
   intros m f D cap rl dst s ws vs A dn pn w' Hm Hi Hdst Hkd HA HAm Hdn Hpn Hb Hv Hk Hwf Hal D0 Hsd H.
   destruct (P_all m Hm f) as [_ HC].
   destruct (HC D cap rl dst s ws vs A dn pn w' Hi Hdst HA HAm Hdn Hpn Hb Hv Hk Hwf Hal D0 Hsd H)
-    as (pwords & kids & cap' & rl' & Lp & -> & Hinv & Post).
+    as (pwords & kids & cap' & rl' & Lp & -> & Hinv & Bk & Post).
   set (blk := resize_words ws (Z.to_nat dn) ++ pwords) in *.
   assert (Lblk : zlen blk = dn + pn) by (unfold blk; rewrite zlen_app; unfold zlen; rewrite resize_words_length; unfold zlen in Lp; lia).
   assert (Ls : zlen (set_slots D A blk) = zlen D) by (apply set_slots_length; [lia|unfold zlen in *; lia]).
   exists (set_slots D A blk ++ kids), cap', rl'. split; [reflexivity|].
   assert (Hinv' : hinv (set_slots D A blk ++ kids)) by (unfold hinv in *; rewrite zlen_app in *; rewrite Ls; exact Hinv).
   split; [exact Hinv'|].
+  split.
+  { intros HbD. apply Forall_app. split; [|exact Bk]. unfold set_slots. apply Forall_app. split; [apply Forall_firstn'; exact HbD|].
+    apply Forall_app. split; [apply bow_bytes_ok|apply Forall_skipn'; exact HbD]. }
   assert (Hsub : sub (set_slots D A blk) A (8 * (dn + pn)) = bytes_of_words blk).
   { rewrite <- Lblk. apply sub_set_slots; [lia|unfold zlen in *; lia]. }
   specialize (Post (set_slots D A blk) [] Ls Hsub). rewrite app_nil_r in Post.
@@ -1109,3 +228,4 @@ Proof.
   - unfold zlen. rewrite resize_ptrs_length. lia.
   - intros i Hi0. apply Post; [exact Hbnd|exact Hi0].
 Qed.
+
